@@ -1,14 +1,15 @@
 #!/usr/bin/env bash
-# tools/run_all.sh [quick|thorough] — runs every registered check in order and prints one status line per property
+# tools/run_all.sh [quick|thorough|full] — runs every registered check in order and prints one status line per property
+# (full = the registered thorough command, i.e. proptest thorough followed by the libFuzzer campaign where one exists)
 cd "$(dirname "$0")/.."
 TIER="${1:-quick}"
 ./check --build || exit 2
 rc_all=0
 for id in $(python3 -c "import json;print(' '.join(c['property_id'] for c in json.load(open('MANIFEST.json'))['checks']))"); do
   start=$(date +%s.%N)
-  out="$(./harness/target/release/krpv "$id" "$TIER" 2>&1)"; rc=$?
+  if [ "$TIER" = full ]; then out="$(./check "$id" thorough 2>&1)"; rc=$?; else out="$(./harness/target/release/krpv "$id" "$TIER" 2>&1)"; rc=$?; fi
   dur=$(python3 -c "import time,sys;print('%.1f'%(time.time()-float(sys.argv[1])))" "$start")
-  line="$(echo "$out" | grep -E "^$id $TIER:" | head -1)"
+  line="$(echo "$out" | grep -E "^$id (quick|thorough):|^fuzz $id" | tr '\n' ' ')"
   kf="$(echo "$out" | grep -c '^KNOWN-FINDING')"
   echo "rc=$rc ${dur}s known=$kf | $line"
   if [ $rc -ne 0 ]; then rc_all=1; echo "$out" | grep -E "^violation|^VIOLATION|INFRA" | head -5; fi
